@@ -78,6 +78,14 @@ func lexSpec(s string) ([]tok, error) {
 			}
 			out = append(out, tok{"id", s[i:j]})
 			i = j
+		case c == '`':
+			// `name`: a Go identifier that happens to be a keyword of the specification language (exists, forall, old, ...)
+			j := strings.IndexByte(s[i+1:], '`')
+			if j < 0 {
+				return nil, fmt.Errorf("unterminated `identifier` in %q", s)
+			}
+			out = append(out, tok{"qid", s[i+1 : i+1+j]})
+			i += j + 2
 		case unicode.IsDigit(rune(c)):
 			j := i + 1
 			for j < len(s) && (unicode.IsDigit(rune(s[j])) || s[j] == 'x' || (s[j] >= 'a' && s[j] <= 'f') || (s[j] >= 'A' && s[j] <= 'F') || s[j] == '_') {
@@ -337,6 +345,8 @@ func (p *sparser) primary() Expr {
 		return EInt{t.text}
 	case "str":
 		return EStr{t.text}
+	case "qid":
+		return EIdent{t.text}
 	case "id":
 		switch t.text {
 		case "true":
